@@ -89,3 +89,9 @@ var storeProp = h.Define(P, "store", func(t *rapid.T) chain.StoreCase { return c
 	func(c *h.Ctx, sc chain.StoreCase) { chain.RunStore(c, sc, "C05") })
 
 func TestStore(t *testing.T) { storeProp.Check(t) }
+
+// Clock histories (chain/clock.go): bounds milliseconds to seconds from now, the same token objects checked
+// before and after real time has passed; verdicts only where the clock readings leave a margin.
+var clockProp = h.Define(P, "clock", chain.DrawClock, func(c *h.Ctx, cc chain.ClockCase) { chain.RunClock(c, cc, "C05") })
+
+func TestClock(t *testing.T) { clockProp.Check(t) }
